@@ -807,6 +807,305 @@ fn run_program(ev: &mut Ev, model: &mut TModel, srv: &mut ImplServer, b: &qverif
     }
 }
 
+// ---------------------------------------------------------------------------------------------
+// generated type-test scripts: real `IsType` on real values, alone and merged with same-shape scripts
+// ---------------------------------------------------------------------------------------------
+
+/// the atoms of the little type language of the scripts
+#[derive(Clone, Copy, PartialEq, Eq, Debug, PartialOrd, Ord)]
+enum Atom {
+    Int,
+    Bin,
+    Nil,
+}
+
+impl Atom {
+    fn ty(self) -> &'static str {
+        match self {
+            Atom::Int => "'int",
+            Atom::Bin => "'bin",
+            Atom::Nil => "[]",
+        }
+    }
+    fn lit(self, k: usize) -> String {
+        match self {
+            Atom::Int => format!("{}", 1 + k),
+            Atom::Bin => format!("0x{:02x}", 0xa0 + k),
+            Atom::Nil => "[]".to_string(),
+        }
+    }
+    /// the other primitive (the sibling script has the same shape with the primitives exchanged)
+    fn swap(self) -> Atom {
+        match self {
+            Atom::Int => Atom::Bin,
+            Atom::Bin => Atom::Int,
+            Atom::Nil => Atom::Nil,
+        }
+    }
+}
+
+fn atoms_ty(set: &[Atom]) -> String {
+    if set.len() == 1 { set[0].ty().to_string() } else { format!("({})", set.iter().map(|a| a.ty()).collect::<Vec<_>>().join(" | ")) }
+}
+
+/// what a script tests: tuples `N[fields]`, functions `#'int -> R`, or processes receiving `M`
+#[derive(Clone, Debug)]
+enum Family {
+    /// tuple name, patterns (one atom set per field), values (one atom per field)
+    Tuples { name: &'static str, labels: Vec<Option<&'static str>>, patterns: Vec<Vec<Vec<Atom>>>, values: Vec<Vec<Atom>> },
+    /// patterns = result types, values = the exact result sets of the function literals
+    Functions { patterns: Vec<Vec<Atom>>, values: Vec<Vec<Atom>> },
+    /// patterns = receive types, values = receive types of the spawned processes
+    Processes { patterns: Vec<Vec<Atom>>, values: Vec<Vec<Atom>> },
+}
+
+fn subset(a: &[Atom], b: &[Atom]) -> bool {
+    a.iter().all(|x| b.contains(x))
+}
+
+impl Family {
+    fn swap(&self) -> Family {
+        let sw = |v: &Vec<Atom>| -> Vec<Atom> { v.iter().map(|a| a.swap()).collect() };
+        match self {
+            Family::Tuples { name, labels, patterns, values } => Family::Tuples {
+                name, labels: labels.clone(),
+                patterns: patterns.iter().map(|p| p.iter().map(sw).collect()).collect(),
+                values: values.iter().map(sw).collect(),
+            },
+            Family::Functions { patterns, values } => Family::Functions { patterns: patterns.iter().map(sw).collect(), values: values.iter().map(sw).collect() },
+            Family::Processes { patterns, values } => Family::Processes { patterns: patterns.iter().map(sw).collect(), values: values.iter().map(sw).collect() },
+        }
+    }
+    /// index (from 1) of the first pattern the k-th value is a member of, 0 when none — membership
+    /// as the property reads it: a tuple value is a member when each field is in the field's type; a
+    /// function / process value when its declared type is assignable to the pattern type (result
+    /// sets resp. receive sets contained)
+    fn expected(&self) -> Vec<usize> {
+        let first = |ok: &dyn Fn(usize) -> bool, n: usize| (0..n).find(|i| ok(*i)).map(|i| i + 1).unwrap_or(0);
+        match self {
+            Family::Tuples { patterns, values, .. } => values.iter().map(|v| first(&|i| patterns[i].iter().zip(v.iter()).all(|(set, a)| set.contains(a)), patterns.len())).collect(),
+            Family::Functions { patterns, values } | Family::Processes { patterns, values } => values.iter().map(|v| first(&|i| subset(v, &patterns[i]), patterns.len())).collect(),
+        }
+    }
+    /// the script; function / process values are defined first
+    fn source(&self) -> String {
+        self.source_marked().replace(SPLIT, "")
+    }
+    /// the same as two REPL lines (definitions, then the tests), when the family has definitions
+    fn repl_lines(&self) -> Option<(String, String)> {
+        let m = self.source_marked();
+        let (defs, test) = m.split_once(SPLIT)?;
+        Some((defs.trim_end().trim_end_matches(',').to_string(), test.to_string()))
+    }
+    fn source_marked(&self) -> String {
+        match self {
+            Family::Tuples { name, labels, patterns, values } => {
+                let field = |l: &Option<&str>, t: String| match l { Some(l) => format!("{l}: {t}"), None => t };
+                let pat_ty = |p: &Vec<Vec<Atom>>| format!("{name}[{}]", p.iter().zip(labels.iter()).map(|(set, l)| field(l, atoms_ty(set))).collect::<Vec<_>>().join(", "));
+                let val_ty = |v: &Vec<Atom>| format!("{name}[{}]", v.iter().zip(labels.iter()).map(|(a, l)| field(l, a.ty().to_string())).collect::<Vec<_>>().join(", "));
+                let mut param: Vec<String> = patterns.iter().map(pat_ty).collect();
+                for v in values {
+                    let t = val_ty(v);
+                    if !param.contains(&t) {
+                        param.push(t);
+                    }
+                }
+                let arms: String = patterns.iter().enumerate().map(|(i, p)| format!(" | ={} => {}", pat_ty(p), i + 1)).collect();
+                let calls: Vec<String> = values.iter().enumerate().map(|(k, v)| format!("{name}[{}] c", v.iter().zip(labels.iter()).map(|(a, l)| field(l, a.lit(k))).collect::<Vec<_>>().join(", "))).collect();
+                format!("c = #({}) {{{arms} | 0 }}, [{}]", param.join(" | "), calls.join(", "))
+            }
+            Family::Functions { patterns, values } => {
+                let mut wide: Vec<Atom> = vec![];
+                for v in values.iter().chain(patterns.iter()) {
+                    for a in v {
+                        if !wide.contains(a) {
+                            wide.push(*a);
+                        }
+                    }
+                }
+                let arms: String = patterns.iter().enumerate().map(|(i, p)| format!(" | =(#'int -> {}) => {}", atoms_ty(p), i + 1)).collect();
+                // a function literal whose result set is exactly `v`
+                let lit = |v: &Vec<Atom>| -> String {
+                    let out = |a: &Atom| match a { Atom::Int => "$".to_string(), Atom::Bin => "0xbb".to_string(), Atom::Nil => "[]".to_string() };
+                    if v.len() == 1 {
+                        match v[0] { Atom::Int => "#'int { [~, 1] __integer_add__ }".to_string(), a => format!("#'int {{ {} }}", out(&a)) }
+                    } else {
+                        let mut arms = String::new();
+                        for (k, a) in v.iter().enumerate() {
+                            if k + 1 < v.len() { arms.push_str(&format!(" | ={k} => {}", out(a))); } else { arms.push_str(&format!(" | {}", out(a))); }
+                        }
+                        format!("#'int {{{arms} }}")
+                    }
+                };
+                let defs: String = values.iter().enumerate().map(|(k, v)| format!("f{k} = {}, ", lit(v))).collect();
+                let calls: Vec<String> = (0..values.len()).map(|k| format!("&f{k} c")).collect();
+                format!("{defs}{SPLIT}c = #(#'int -> {}) {{{arms} | 0 }}, [{}]", atoms_ty(&wide), calls.join(", "))
+            }
+            Family::Processes { patterns, values } => {
+                let mut wide: Vec<Atom> = vec![];
+                for v in values.iter().chain(patterns.iter()) {
+                    for a in v {
+                        if !wide.contains(a) {
+                            wide.push(*a);
+                        }
+                    }
+                }
+                let arms: String = patterns.iter().enumerate().map(|(i, p)| format!(" | =(@{}) => {}", atoms_ty(p), i + 1)).collect();
+                let defs: String = values.iter().enumerate().map(|(k, v)| format!("p{k} = @{{ !{} }}, ", atoms_ty(v))).collect();
+                let calls: Vec<String> = (0..values.len()).map(|k| format!("&p{k} c")).collect();
+                format!("{defs}{SPLIT}c = #(@{}) {{{arms} | 0 }}, [{}]", atoms_ty(&wide), calls.join(", "))
+            }
+        }
+    }
+}
+
+/// marks the end of the definitions in `source_marked`
+const SPLIT: &str = "/*--*/";
+
+fn gen_atom_set(r: &mut Rng, allow_nil: bool) -> Vec<Atom> {
+    let pool: &[Atom] = if allow_nil { &[Atom::Int, Atom::Bin, Atom::Nil] } else { &[Atom::Int, Atom::Bin] };
+    loop {
+        let mut v: Vec<Atom> = pool.iter().copied().filter(|_| r.chance(1, 2)).collect();
+        if !v.is_empty() {
+            if r.chance(1, 2) {
+                v.reverse();
+            }
+            return v;
+        }
+    }
+}
+
+fn gen_family(r: &mut Rng) -> Family {
+    let n_pat = 1 + r.usize(3);
+    let n_val = 2 + r.usize(3);
+    match r.below(10) {
+        0..=4 => {
+            let name = ["T", "U", "Ok"][r.usize(3)];
+            let n_fields = 1 + r.usize(2);
+            let labels: Vec<Option<&'static str>> = (0..n_fields).map(|k| if r.chance(1, 3) { Some(["x", "y"][k]) } else { None }).collect();
+            let patterns = (0..n_pat).map(|_| (0..n_fields).map(|_| if r.chance(2, 3) { vec![[Atom::Int, Atom::Bin, Atom::Nil][r.usize(3)]] } else { gen_atom_set(r, true) }).collect()).collect();
+            let values = (0..n_val).map(|_| (0..n_fields).map(|_| [Atom::Int, Atom::Bin, Atom::Nil][r.usize(3)]).collect()).collect();
+            Family::Tuples { name, labels, patterns, values }
+        }
+        5..=7 => Family::Functions { patterns: (0..n_pat).map(|_| gen_atom_set(r, true)).collect(), values: (0..n_val).map(|_| gen_atom_set(r, true)).collect() },
+        _ => Family::Processes { patterns: (0..n_pat).map(|_| gen_atom_set(r, false)).collect(), values: (0..n_val.min(3)).map(|_| gen_atom_set(r, false)).collect() },
+    }
+}
+
+/// compile `src` on its own (own `Program`, own id space) and run it as a new process of `sim`'s
+/// environment, which merges its bytecode with what is already there; canonical result
+fn run_script_in(sim: &mut qverif::sim::Sim, b: &qverif::run::Builtins, src: &str, shake: bool) -> Result<String, String> {
+    let unit = qverif::run::compile_source(src, &std::collections::HashMap::new(), b).map_err(|e| format!("rejected:{e:?}"))?;
+    let mut bc = unit.program.to_bytecode(Some(unit.entry));
+    if shake {
+        bc = catch(|| quiver_core::optimisation::tree_shake(bc.clone(), unit.entry)).map_err(|p| format!("tree_shake panics: {p}"))?;
+    }
+    let out = catch(std::panic::AssertUnwindSafe(|| {
+        let pid = sim.env.start_process(Some(bc)).map_err(|e| format!("start_process: {e:?}"))?;
+        let req = sim.env.request_result(pid, None).map_err(|e| format!("request_result: {e:?}"))?;
+        let mut result = None;
+        let finished = sim.run_fair(400, |s| {
+            if result.is_none() {
+                result = s.poll_result(req);
+            }
+            result.is_some()
+        });
+        if !finished {
+            return Err("no result".to_string());
+        }
+        match result.unwrap() {
+            Ok((v, heap)) => Ok(sim.canon(&v, &heap)),
+            Err(e) => Err(format!("runtime error: {e:?}")),
+        }
+    }));
+    match out {
+        Ok(x) => x,
+        Err(p) => Err(format!("panic: {p}")),
+    }
+}
+
+/// the canonical rendering (`qverif::canon`) of the list of verdicts `[e1, e2, …]`
+fn expected_render(e: &[usize]) -> String {
+    format!("t(_;{})", e.iter().map(|i| format!("_=i{i}")).collect::<Vec<_>>().join(","))
+}
+
+/// One generated script `S` and its same-shape sibling `S'` (primitives exchanged, so the two type
+/// tables coincide index for index while the entries mean different types): `S` alone (plain and
+/// tree-shaken), then both in ONE environment in both orders. Every result must be the list of
+/// verdicts that membership gives.
+fn run_type_test_scripts(ev: &mut Ev, b: &qverif::run::Builtins, r: &mut Rng, k: u64) {
+    let fam = gen_family(r);
+    let sib = if r.chance(4, 5) { fam.swap() } else { gen_family(r) };
+    let (src, want) = (fam.source(), expected_render(&fam.expected()));
+    let (src2, want2) = (sib.source(), expected_render(&sib.expected()));
+    let kind = match fam { Family::Tuples { .. } => "tuples", Family::Functions { .. } => "functions", Family::Processes { .. } => "processes" };
+    ev.hit(&format!("script-family:{kind}"));
+    let fresh = || qverif::sim::Sim::new(1, None, b.clone(), false);
+    let check = |ev: &mut Ev, cfg: &str, got: Result<String, String>, src: &str, want: &str, before: &[&str]| {
+        ev.case(&("script", k, cfg, src), true);
+        match got {
+            Ok(g) if g == want => ev.hit(&format!("script:{cfg}:verdicts-as-membership")),
+            Err(e) if e.starts_with("rejected:") => ev.hit(&format!("script:{cfg}:rejected-by-front-end")),
+            Ok(g) => {
+                let sig = if before.is_empty() { format!("script-verdicts:{kind}:{cfg}") } else { format!("script-verdicts-after-merge:{kind}") };
+                report(ev, &sig,
+                    &format!("({cfg}) the type tests of `{src}` give {g}, membership gives {want}{}", if before.is_empty() { String::new() } else { format!(" — after {} other script(s) had been merged into the environment: {before:?}", before.len()) }),
+                    json!({"script": src, "before_scripts": before, "configuration": cfg, "got": g, "membership": want}), true);
+            }
+            Err(e) => report(ev, &format!("script-run:{kind}:{cfg}"), &format!("({cfg}) `{src}` does not produce a result: {e}"), json!({"script": src, "before_scripts": before, "configuration": cfg, "error": e}), true),
+        }
+    };
+    let mut sim = fresh();
+    let got = run_script_in(&mut sim, b, &src, false);
+    if matches!(&got, Err(e) if e.starts_with("rejected:")) {
+        ev.hit("script:rejected-by-front-end");
+        if std::env::var("C08_DUMP").is_ok() {
+            eprintln!("rejected: {src}: {got:?}");
+        }
+        return;
+    }
+    check(ev, "alone", got, &src, &want, &[]);
+    let mut sim = fresh();
+    check(ev, "alone-tree-shaken", run_script_in(&mut sim, b, &src, true), &src, &want, &[]);
+    // both orders in one environment
+    let mut sim = fresh();
+    let first = run_script_in(&mut sim, b, &src2, false);
+    if !matches!(&first, Err(e) if e.starts_with("rejected:")) {
+        check(ev, "sibling-first", first, &src2, &want2, &[]);
+        check(ev, "after-sibling", run_script_in(&mut sim, b, &src, r.chance(1, 3)), &src, &want, &[&src2]);
+        let mut sim = fresh();
+        let _ = run_script_in(&mut sim, b, &src, false);
+        check(ev, "sibling-after", run_script_in(&mut sim, b, &src2, r.chance(1, 3)), &src2, &want2, &[&src]);
+    }
+    // a REPL session: the function / process values are bound on one line and tested on the next
+    // (they come back as literals of the session's program), alone and after an independent script
+    // has been merged into the same environment (so the session's indices are shifted)
+    if let Some((defs, test)) = fam.repl_lines() {
+        for after_script in [false, true] {
+            let cfg = if after_script { "repl-two-lines-after-script" } else { "repl-two-lines" };
+            let mut sim = fresh().with_repl(std::collections::HashMap::new());
+            let mut before: Vec<&str> = vec![];
+            if after_script {
+                let _ = run_script_in(&mut sim, b, &src2, false);
+                before.push(&src2);
+            }
+            let out = catch(std::panic::AssertUnwindSafe(|| {
+                let d = qverif::sim::eval_in(&mut sim, &defs, None, 400);
+                let t = qverif::sim::eval_in(&mut sim, &test, None, 400);
+                (d.render(), t)
+            }));
+            let got = match out {
+                Ok((_, qverif::sim::EvalOutcome::Value(v))) => Ok(v),
+                Ok((_, qverif::sim::EvalOutcome::Rejected(e))) => Err(format!("rejected:{e}")),
+                Ok((d, other)) => Err(format!("{} (definitions line: {d})", other.render())),
+                Err(p) => Err(format!("panic: {p}")),
+            };
+            let shown = format!("{defs} ⏎ {test}");
+            check(ev, cfg, got, &shown, &want, &before);
+        }
+    }
+}
+
 fn main() {
     let argv: Vec<String> = std::env::args().collect();
     if argv.get(1).map(|s| s.as_str()) == Some("--impl-server") {
@@ -836,6 +1135,17 @@ fn main() {
             run_program(&mut ev2, &mut model, &mut srv, &b, "replay", src, &before, None);
             println!("replay counters: {:?}", ev2.counters);
             bad = ev2.violation_count() > 0;
+        } else if let Some(script) = rp["script"].as_str() {
+            // a generated type-test script: same configuration, verdicts against the recorded membership
+            let before: Vec<String> = rp["before_scripts"].as_array().map(|a| a.iter().filter_map(|x| x.as_str().map(|s| s.to_string())).collect()).unwrap_or_default();
+            let want = rp["membership"].as_str().unwrap_or("");
+            let mut sim = qverif::sim::Sim::new(1, None, b.clone(), false);
+            for s in &before {
+                let _ = run_script_in(&mut sim, &b, s, false);
+            }
+            let got = run_script_in(&mut sim, &b, script, rp["configuration"].as_str() == Some("alone-tree-shaken"));
+            println!("replay: verdicts {got:?}, membership {want}");
+            bad = !matches!(&got, Ok(g) if g == want);
         } else if let Some(inp) = Input::of_json(&rp["input"]) {
             let mut ev2 = Ev::new("C08", &opts);
             if let Some(t) = correspond(&mut ev2, &mut model, &mut srv, &inp, "replay", "replay") {
@@ -940,6 +1250,14 @@ fn main() {
             }
         }
     }
+
+    // ---- generated type-test scripts -----------------------------------------------------------
+    let n_scripts = opts.tier.pick(160u64, 3000u64);
+    for k in 0..n_scripts {
+        let mut r = Rng::for_case(opts.seed ^ 0xC085C, k);
+        run_type_test_scripts(&mut ev, &b, &mut r, k);
+    }
+    ev.set_extra("type_test_scripts", json!(n_scripts));
 
     // ---- compiled programs ---------------------------------------------------------------------
     let mut sources: Vec<(String, String)> = qverif::corpus::test_sources();
